@@ -93,9 +93,153 @@ def _ioapi_case(rng):
     return dict(kind='ioapi', fns=[], c10=dict(src=src, recipes=[], ops=[['apply', d, fn]]))
 
 
+NP_REDUCERS = ['mean', 'sum', 'min', 'max', 'std', 'var']
+
+
+def _direct_case(rng):
+    """files the operation model does not build, judged directly against numpy on the arrays the source file holds:
+    (ioapi) IOAPI files (in memory, on disk, boundary, with extra variables) incl. length-1 dimensions and reducers that are
+    not the identity on one element; (disk) the string front end reduce_dim on a netCDF file on disk whose variables have
+    missing values, whole fibres included; (derived) a file holding float variables derived from integer ones (eval, direct
+    assignment) before applyAlongDimensions"""
+    k = rng.choice(['ioapi', 'ioapi', 'disk', 'derived'])
+    if k == 'ioapi':
+        from . import c10
+        src = c10._src(rng)
+        if rng.random() < 0.5:
+            src[rng.choice(['nl', 'nt', 'nr'])] = 1
+        if src['kind'].startswith('griddesc'):
+            src['kind'] = 'arrays'
+        d = rng.choice(['LAY', 'LAY', 'TSTEP', 'ROW', 'COL'])
+        return dict(kind='direct', sub=k, fns=[], src=src, dim=d, fn=rng.choice(NP_REDUCERS + ['first2', 'rev']))
+    spec = pfile.gen_file(rng, maxlen=4, minlen=1 if rng.random() < 0.3 else 2, masked_prob=0.6 if k == 'disk' else 0.3)
+    for v in spec['vars']:
+        if v['dtype'] == 'f':
+            v['dtype'] = 'd'
+    if k == 'derived':
+        for v in spec['vars'][:2]:
+            v['dtype'] = 'i'
+    names = [d[0] for d in spec['dims']]
+    dim = rng.choice(names)
+    if k == 'disk':
+        dl = {d[0]: d[1] for d in spec['dims']}
+        for v in spec['vars']:
+            # a whole fibre without a valid element
+            if v['masked'] and dim in v['dims'] and rng.random() < 0.6:
+                shape = [dl[n] for n in v['dims']]
+                idx = np.arange(int(np.prod(shape))).reshape(shape)
+                sel = [slice(None) if n == dim else rng.randrange(dl[n]) for n in v['dims']]
+                for i in np.atleast_1d(idx[tuple(sel)]).ravel().tolist():
+                    v['data'][i] = None
+    return dict(kind='direct', sub=k, fns=[], spec=spec, dim=dim, fn=rng.choice(NP_REDUCERS if k == 'disk' else NP_REDUCERS + ['diff', 'rev']),
+                how=rng.choice(['eval', 'assign']))
+
+
+def _snap(f):
+    out = {}
+    for k, v in f.variables.items():
+        a = v[...]
+        out[k] = dict(dims=list(v.dimensions), data=np.ma.getdata(a).astype('d').ravel().tolist(),
+                      mask=np.ma.getmaskarray(a).ravel().tolist(), shape=list(np.shape(a)), kind=np.asarray(np.ma.getdata(a)).dtype.kind)
+    return out
+
+
+def _impl_direct(case):
+    import os
+    path = None
+    try:
+        with lib.pnc_warnings(), np.errstate(all='ignore'):
+            if case['sub'] == 'ioapi':
+                from . import c10
+                f, path = c10.build(case['src'])
+                if case['dim'] not in f.dimensions:
+                    return dict(skip=True)
+                before = _snap(f)
+                g = f.applyAlongDimensions(**{case['dim']: c10.FNS.get(case['fn'], case['fn'])})
+            elif case['sub'] == 'disk':
+                import PseudoNetCDF as pnc
+                from PseudoNetCDF.core._functions import reduce_dim
+                from .. import camx
+                path = os.path.join(camx.tmpdir(), 'c03d_%d_%d.nc' % (os.getpid(), np.random.randint(1 << 30)))
+                pfile.build(case['spec']).save(path, format='NETCDF4_CLASSIC', verbose=0).close()
+                f = pnc.pncopen(path, format='netcdf')
+                before = _snap(f)
+                g = reduce_dim(f, '%s,%s' % (case['dim'], case['fn']))
+            else:
+                f = pfile.build(case['spec'])
+                ints = [v['name'] for v in case['spec']['vars'] if v['dtype'] == 'i' and v['dims']]
+                for i, nm in enumerate(ints):
+                    if case['how'] == 'eval':
+                        f = f.eval('R%d = %s / 7.' % (i, nm), inplace=False, copyall=True)
+                    else:
+                        f.variables['R%d' % i] = f.variables[nm] * 0.5
+                before = _snap(f)
+                g = f.applyAlongDimensions(**{case['dim']: (case['fn'] if case['fn'] in NP_REDUCERS else PYFN[case['fn']])})
+            return dict(before=before, after=_snap(g), dimlen={k: len(v) for k, v in g.dimensions.items()})
+    except lib.HarnessError:
+        raise
+    except Exception as e:
+        return dict(err=type(e).__name__, msg=str(e)[:100])
+    finally:
+        if path and os.path.exists(path):
+            os.remove(path)
+
+
+def _oracle_direct(case, res):
+    if res.get('skip'):
+        return None
+    if 'err' in res:
+        if case['sub'] == 'ioapi' and case['dim'] not in ('LAY', 'TSTEP', 'ROW', 'COL'):
+            return None
+        return '%s %s=%s raised %s %s' % (case['sub'], case['dim'], case['fn'], res['err'], res.get('msg'))
+    dim, fn = case['dim'], case['fn']
+    from . import c10
+    for k, b in res['before'].items():
+        if k == 'TFLAG' or k not in res['after']:
+            continue            # IOAPI regenerates the time flags (C10); variables dropped by a wrapper are C10's concern
+        a = res['after'][k]
+        arr = np.ma.masked_array(np.array(b['data'], dtype='d').reshape(b['shape']), mask=np.array(b['mask'], dtype=bool).reshape(b['shape']))
+        if dim in b['dims']:
+            ax = b['dims'].index(dim)
+            if b['shape'][ax] == 0:
+                continue
+            with np.errstate(all='ignore'):
+                if fn in NP_REDUCERS:
+                    want = getattr(np.ma, fn)(arr, axis=ax, keepdims=True)
+                else:
+                    f_ = c10.FNS.get(fn) or PYFN[fn]
+                    m = np.ma.getmaskarray(arr)
+                    if fn == 'diff':
+                        if b['shape'][ax] < 2:
+                            continue
+                        # a difference is missing when either neighbour is
+                        want = np.ma.masked_array(np.diff(np.ma.getdata(arr), axis=ax), mask=np.logical_or(
+                            np.take(m, range(1, m.shape[ax]), axis=ax), np.take(m, range(0, m.shape[ax] - 1), axis=ax)))
+                    else:
+                        # selections (first two, reversed): the same selection of the mask
+                        want = np.ma.masked_array(np.apply_along_axis(f_, ax, np.ma.getdata(arr)),
+                                                  mask=np.apply_along_axis(f_, ax, m))
+        else:
+            want = arr
+        wm = np.ma.getmaskarray(want).ravel()
+        wd = np.ma.getdata(want).astype('d').ravel()
+        if list(np.shape(want)) != a['shape']:
+            return '%s %s=%s: variable %s has shape %s, numpy gives %s' % (case['sub'], dim, fn, k, a['shape'], list(np.shape(want)))
+        am, ad = np.array(a['mask'], dtype=bool), np.array(a['data'], dtype='d')
+        if a['kind'] in 'iu' and b['kind'] in 'iu':
+            wd = np.trunc(wd)       # integer variables keep their type: the C cast of the float result
+        for i in range(wd.size):
+            if bool(am[i]) != bool(wm[i]):
+                return '%s %s=%s: variable %s cell %d masked=%s, numpy gives masked=%s' % (case['sub'], dim, fn, k, i, bool(am[i]), bool(wm[i]))
+            if not wm[i] and not (abs(ad[i] - wd[i]) <= 1e-5 * max(1.0, abs(wd[i])) or (ad[i] != ad[i] and wd[i] != wd[i])):
+                return '%s %s=%s: variable %s cell %d = %r, numpy gives %r' % (case['sub'], dim, fn, k, i, ad[i], wd[i])
+    return None
+
+
 def gen(rng, tier):
     n = 300 if tier == 'quick' else 10000
     out = [_case(rng) for _ in range(n)]
+    out += [_direct_case(rng) for _ in range(n // 4)]
     out += [_legacy_reduce_case(rng) for _ in range(n // 8)]
     out += [_legacy_convolve_case(rng) for _ in range(n // 10)]
     out += [_ioapi_case(rng) for _ in range(n // 10)]
@@ -103,6 +247,8 @@ def gen(rng, tier):
 
 
 def impl(case):
+    if case.get('kind') == 'direct':
+        return _impl_direct(case)
     if case.get('kind') == 'ioapi':
         from . import c10
         return c10.impl(case['c10'])
@@ -126,6 +272,8 @@ def impl(case):
 
 
 def to_line(case, res):
+    if case.get('kind') == 'direct':
+        return 'c03 apply x:1:f - - -'      # no model question (oracle only)
     if case.get('kind') == 'ioapi':
         from . import c10
         return c10.to_line(case['c10'], res)
@@ -137,6 +285,8 @@ def to_line(case, res):
 
 
 def agree(case, out, res):
+    if case.get('kind') == 'direct':
+        return None
     if case.get('kind') == 'ioapi':
         from . import c10
         return c10.agree(case['c10'], out, res)
@@ -172,6 +322,8 @@ def agree(case, out, res):
 
 def oracle(case, res):
     """numpy / numpy.ma applied directly along the corresponding axes of the input arrays"""
+    if case.get('kind') == 'direct':
+        return _oracle_direct(case, res)
     if case.get('kind') == 'ioapi':
         return _oracle_ioapi(case, res)
     if case.get('kind') in ('reduce', 'convolve'):
@@ -312,6 +464,8 @@ def classify(case, failure, model_out):
 
 
 def nontrivial(case, res):
+    if case.get('kind') == 'direct':
+        return 'err' not in res and not res.get('skip')
     if case.get('kind') == 'ioapi':
         return bool(res.get('states')) and 'err' not in res['states'][0]
     if case.get('kind') == 'convolve':
@@ -326,7 +480,10 @@ def distribution(recs):
     for r in recs:
         if r['case'].get('kind'):
             d[r['case']['kind']] = d.get(r['case']['kind'], 0) + 1
-            if r['case']['kind'] == 'ioapi':
+            if r['case']['kind'] == 'direct':
+                key = 'direct_%s%s' % (r['case']['sub'], '!' if 'err' in r['impl'] else '')
+                d[key] = d.get(key, 0) + 1
+            if r['case']['kind'] in ('ioapi', 'direct'):
                 continue
         for k, fn in r['case']['fns']:
             d[fn] = d.get(fn, 0) + 1
